@@ -176,13 +176,14 @@ theorem Props.parse_lenOk (data : List Nat) :
     re-encoding of the right length -/
 theorem parsePropsAt_lenOk (site : String) (validate : Props → Option Err) (data : List Nat) (cursor : Nat) :
     Post (parsePropsAt site validate data cursor)
-      (fun pp _ => (Props.encode pp.1).length = pp.1.size ∧ pp.2 = pp.1.size ∧ pp.2 ≤ vbiMax) := by
+      (fun pp c => (Props.encode pp.1).length = pp.1.size ∧ pp.2 = pp.1.size ∧ pp.2 ≤ vbiMax
+                    ∧ c = vbiSize pp.2 + pp.1.size) := by
   unfold parsePropsAt
   refine post_sliceFrom fun d _ => ?_
-  refine post_bind (Props.parse_lenOk d) fun ps c h => ?_
+  refine post_bind (post_and (Props.parse_lenOk d) (Props.parse_sat d).toPost) fun ps c ⟨h, h2, _, _, _⟩ => ?_
   split
   · exact post_err
-  · exact post_vbiOf fun hm => post_ok ⟨h, rfl, hm⟩
+  · exact post_vbiOf fun hm => post_ok ⟨h, rfl, hm, h2.symm⟩
 
 /-! ### per kind: `size = |encode|` for accepted input -/
 
@@ -272,14 +273,14 @@ theorem Unsubscribe3.size_ok (pw : Nat) (data : List Nat) (hpw : pw = 2 ∨ pw =
       (by simp [encId_length pw _ hpw, topicsEncode_length])
     simpa [Unsubscribe3.size, Unsubscribe3.encode] using this
 
-theorem parsePublishHead_post (pw flags : Nat) (data : List Nat) :
-    Post (parsePublishHead pw flags data) (fun _ c => c ≤ data.length) :=
-  fun a c e => ((parsePublishHead_sat pw flags data).post a c e).1
+theorem parsePublishHead_post (v5 : Bool) (pw flags : Nat) (data : List Nat) :
+    Post (parsePublishHead v5 pw flags data) (fun _ c => c ≤ data.length) :=
+  fun a c e => ((parsePublishHead_sat v5 pw flags data).post a c e).1
 
 theorem Publish3.size_ok (pw flags : Nat) (data : List Nat) (hpw : pw = 2 ∨ pw = 4) :
     Post (Publish3.parse pw flags data) (fun p _ => p.size = (p.encode pw).length) := by
   unfold Publish3.parse
-  refine post_bind (parsePublishHead_post pw flags data) fun tp c _ => ?_
+  refine post_bind (parsePublishHead_post false pw flags data) fun tp c _ => ?_
   refine post_usub fun _ => ?_
   refine post_sliceFrom fun payload hp => ?_
   dsimp only
@@ -291,10 +292,10 @@ theorem Publish3.size_ok (pw flags : Nat) (data : List Nat) (hpw : pw = 2 ∨ pw
 theorem Publish5.size_ok (pw flags : Nat) (data : List Nat) (hpw : pw = 2 ∨ pw = 4) :
     Post (Publish5.parse pw flags data) (fun p _ => p.size = (p.encode pw).length) := by
   unfold Publish5.parse
-  refine post_bind (parsePublishHead_post pw flags data) fun tp c _ => ?_
+  refine post_bind (parsePublishHead_post true pw flags data) fun tp c _ => ?_
   refine post_bind (P := fun pp _ => (Props.encode pp.1).length = pp.1.size ∧ pp.2 ≤ vbiMax) ?_ fun pp c2 ⟨h1, h2⟩ => ?_
   · split
-    · exact post_bind (parsePropsAt_lenOk _ _ data c) fun pp pc ⟨a, _, b⟩ => post_ok ⟨a, b⟩
+    · exact post_bind (parsePropsAt_lenOk _ _ data c) fun pp pc ⟨a, _, b, _⟩ => post_ok ⟨a, b⟩
     · exact post_ok ⟨rfl, by unfold vbiMax; omega⟩
   · refine post_usub fun _ => ?_
     refine post_sliceFrom fun payload hp => ?_
@@ -318,7 +319,7 @@ theorem parseRcProps_post (site : String) (rcOk : Nat → Bool) (validate : Prop
     · exact post_err
     · dsimp only
       split
-      · refine post_bind (parsePropsAt_lenOk _ _ data (cursor + 1)) fun pp pc ⟨a, b, c⟩ => post_ok ?_
+      · refine post_bind (parsePropsAt_lenOk _ _ data (cursor + 1)) fun pp pc ⟨a, b, c, _⟩ => post_ok ?_
         simp [encOptByte, encOptProps, rcPropsRemaining, optPropsSize, vbiEnc_length _ c, a]; omega
       · exact post_ok (by simp [encOptByte, encOptProps, rcPropsRemaining, optPropsSize])
   · exact post_ok (by simp [encOptByte, encOptProps, rcPropsRemaining, optPropsSize])
@@ -360,106 +361,204 @@ theorem Auth5.size_ok (data : List Nat) :
     rw [rcProps5_encode]
     exact sizeOfRem_eq 0xf0 _ _ hm h1
 
-/-! ### CONNECT v3.1.1 -/
+/-! ### the v5.0 kinds that take `remaining_length` from the consumed byte count
+(true since `decode_stream` rejects non-minimal encodings: consumed = canonical size) -/
+
+theorem Connack5.size_ok (data : List Nat) : Post (Connack5.parse data) (fun p _ => p.size = p.encode.length) := by
+  unfold Connack5.parse
+  split
+  · exact post_err
+  · refine post_idx fun flags => ?_
+    split
+    · exact post_err
+    · refine post_idx fun code => ?_
+      split
+      · exact post_err
+      · refine post_bind (parsePropsAt_lenOk _ _ data 2) fun pp pc ⟨a, _, b, c⟩ => ?_
+        dsimp only
+        refine post_vbiOf fun hm => post_ok ?_
+        have := sizeOfRem_eq 0x20 (2 + pc) ([flags, code] ++ (vbiEnc pp.2 ++ Props.encode pp.1)) hm
+          (by simp only [List.length_append, List.length_cons, List.length_nil, vbiEnc_length _ b, a]; omega)
+        simpa [Connack5.size, Connack5.encode, List.append_assoc] using this
+
+theorem Codes5.size_ok (rcOk : Nat → Bool) (fh pw : Nat) (data : List Nat) (hpw : pw = 2 ∨ pw = 4) :
+    Post (Codes5.parse rcOk pw data) (fun p _ => p.size = (p.encode fh pw).length) := by
+  unfold Codes5.parse
+  refine post_bind (parseIdFront_post _ pw data) fun pid c hc => ?_
+  refine post_bind (parsePropsAt_lenOk _ _ data c) fun pp pc ⟨a, _, b, e⟩ => ?_
+  dsimp only
+  refine post_sliceFrom fun codes _ => ?_
+  split
+  · exact post_err
+  · split
+    · exact post_err
+    · refine post_vbiOf fun hm => post_ok ?_
+      have := sizeOfRem_eq fh (pw + pc + codes.length) (encId pw pid ++ (vbiEnc pp.2 ++ (Props.encode pp.1 ++ codes))) hm
+        (by simp only [List.length_append, encId_length pw _ hpw, vbiEnc_length _ b, a]; omega)
+      simpa [Codes5.size, Codes5.encode, List.append_assoc] using this
+
+theorem Subscribe5.size_ok (pw : Nat) (data : List Nat) (hpw : pw = 2 ∨ pw = 4) :
+    Post (Subscribe5.parse pw data) (fun p _ => p.size = (p.encode pw).length) := by
+  unfold Subscribe5.parse
+  refine post_bind (parseIdFront_post _ pw data) fun pid c hc => ?_
+  refine post_bind (parsePropsAt_lenOk _ _ data c) fun pp pc ⟨a, _, b, e⟩ => ?_
+  dsimp only
+  refine post_sliceFrom fun rest _ => ?_
+  refine post_bind (P := fun _ _ => True) (fun _ _ _ => trivial) fun es c2 _ => ?_
+  split
+  · exact post_err
+  · split
+    · exact post_err
+    · refine post_vbiOf fun hm => post_ok ?_
+      have := sizeOfRem_eq 0x82 (pw + pc + entriesSize es)
+        (encId pw pid ++ (vbiEnc pp.2 ++ (Props.encode pp.1 ++ entriesEncode es))) hm
+        (by simp only [List.length_append, encId_length pw _ hpw, vbiEnc_length _ b, a, entriesEncode_length]; omega)
+      simpa [Subscribe5.size, Subscribe5.encode, List.append_assoc] using this
+
+theorem Unsubscribe5.size_ok (pw : Nat) (data : List Nat) (hpw : pw = 2 ∨ pw = 4) :
+    Post (Unsubscribe5.parse pw data) (fun p _ => p.size = (p.encode pw).length) := by
+  unfold Unsubscribe5.parse
+  refine post_bind (parseIdFront_post _ pw data) fun pid c hc => ?_
+  refine post_bind (parsePropsAt_lenOk _ _ data c) fun pp pc ⟨a, _, b, e⟩ => ?_
+  dsimp only
+  refine post_sliceFrom fun rest _ => ?_
+  refine post_bind (P := fun _ _ => True) (fun _ _ _ => trivial) fun ts c2 _ => ?_
+  split
+  · exact post_err
+  · split
+    · exact post_err
+    · refine post_vbiOf fun hm => post_ok ?_
+      have := sizeOfRem_eq 0xa2 (pw + pc + topicsSize ts)
+        (encId pw pid ++ (vbiEnc pp.2 ++ (Props.encode pp.1 ++ topicsEncode ts))) hm
+        (by simp only [List.length_append, encId_length pw _ hpw, vbiEnc_length _ b, a, topicsEncode_length]; omega)
+      simpa [Unsubscribe5.size, Unsubscribe5.encode, List.append_assoc] using this
+
+/-! ### CONNECT -/
 
 theorem decStr_post (d : List Nat) : Post (decStr d) (fun s c => c = strSize s) :=
   fun a c e => by have := ((decStr_sat d).post a c e).1; simpa [strSize] using this
 theorem decBin_post (d : List Nat) : Post (decBin d) (fun s c => c = strSize s) :=
   fun a c e => by have := ((decBin_sat d).post a c e).1; simpa [strSize] using this
 
-theorem parseWill3_post (data : List Nat) (cursor : Nat) (t : ConnTail) :
-    Post (parseWill false data cursor t)
-      (fun t' c => c = cursor + strSize t'.willTopic + strSize t'.willPayload ∧ t'.clientId = t.clientId) := by
-  unfold parseWill
-  simp only [Bool.false_eq_true, if_false, bind_ok]
-  refine post_sliceFrom fun d _ => ?_
-  refine post_bind (decStr_post d) fun wt c h1 => ?_
-  refine post_sliceFrom fun d2 _ => ?_
-  refine post_bind (decBin_post d2) fun wp c2 h2 => post_ok ?_
-  exact ⟨by dsimp only; omega, rfl⟩
+/-- the will properties of a tail re-encode to their cached length -/
+def ConnTail.wOk (t : ConnTail) : Prop :=
+  (Props.encode t.willProps).length = t.willProps.size ∧ t.willPropLen ≤ vbiMax
 
-def tailLen3 (flags : Nat) (t : ConnTail) : Nat :=
-  strSize t.clientId + (if willFlag flags then strSize t.willTopic + strSize t.willPayload else 0)
+def willLen (v5 : Bool) (t : ConnTail) : Nat :=
+  (if v5 then vbiSize t.willPropLen + t.willProps.size else 0) + (strSize t.willTopic + strSize t.willPayload)
+
+theorem parseWill_post (v5 : Bool) (data : List Nat) (cursor : Nat) (t : ConnTail) (ht : t.wOk) :
+    Post (parseWill v5 data cursor t)
+      (fun t' c => c = cursor + willLen v5 t' ∧ t'.clientId = t.clientId ∧ t'.wOk) := by
+  unfold parseWill
+  refine post_bind (P := fun t1 c1 => c1 = cursor + (if v5 then vbiSize t1.willPropLen + t1.willProps.size else 0)
+      ∧ t1.clientId = t.clientId ∧ t1.wOk) ?_ fun t1 c1 ⟨h1, h2, h3⟩ => ?_
+  · cases v5 with
+    | false => exact post_ok ⟨by simp, rfl, ht⟩
+    | true =>
+      simp only [if_true]
+      refine post_sliceFrom fun d _ => ?_
+      refine post_bind (post_and (Props.parse_lenOk d) (Props.parse_sat d).toPost) fun wp c ⟨a, b, _, _, _⟩ => ?_
+      split
+      · exact post_err
+      · refine post_vbiOf fun hm => post_ok ?_
+        exact ⟨by dsimp only; omega, rfl, a, hm⟩
+  · refine post_sliceFrom fun d _ => ?_
+    refine post_bind (decStr_post d) fun wt c h4 => ?_
+    dsimp only
+    refine post_sliceFrom fun d2 _ => ?_
+    refine post_bind (decBin_post d2) fun wp c2 h5 => post_ok ?_
+    refine ⟨?_, h2, h3⟩
+    simp only [willLen]
+    omega
+
+def tailLen (v5 : Bool) (flags : Nat) (t : ConnTail) : Nat :=
+  strSize t.clientId + (if willFlag flags then willLen v5 t else 0)
     + (if userNameFlag flags then strSize t.userName else 0) + (if passwordFlag flags then strSize t.password else 0)
 
-theorem parseConnectTail3_post (flags : Nat) (data : List Nat) (cursor : Nat) :
-    Post (parseConnectTail false flags data cursor) (fun t c => c = cursor + tailLen3 flags t) := by
+theorem parseConnectTail_post (v5 : Bool) (flags : Nat) (data : List Nat) (cursor : Nat) :
+    Post (parseConnectTail v5 flags data cursor) (fun t c => c = cursor + tailLen v5 flags t ∧ t.wOk) := by
   unfold parseConnectTail
   refine post_sliceFrom fun d _ => ?_
   refine post_bind (post_mapErr (decStr_post d)) fun cid c h0 => ?_
   dsimp only
   refine post_bind
-    (P := fun t c1 => c1 = cursor + strSize t.clientId
-            + (if willFlag flags then strSize t.willTopic + strSize t.willPayload else 0)) ?_ fun t1 c1 h1 => ?_
+    (P := fun t c1 => c1 = cursor + strSize t.clientId + (if willFlag flags then willLen v5 t else 0) ∧ t.wOk)
+    ?_ fun t1 c1 ⟨h1, w1⟩ => ?_
   · split
-    · rename_i hw
-      refine fun t' c' e => ?_
-      obtain ⟨a, b⟩ := parseWill3_post data (cursor + c) { clientId := cid } t' c' e
-      try dsimp only
+    · refine fun t' c' e => ?_
+      obtain ⟨a, b, w⟩ := parseWill_post v5 data (cursor + c) { clientId := cid }
+        ⟨rfl, by unfold vbiMax; exact Nat.zero_le _⟩ t' c' e
+      refine ⟨?_, w⟩
       simp only [b]
       omega
-    · rename_i hw
-      refine post_ok ?_
+    · refine post_ok ⟨?_, rfl, by unfold vbiMax; exact Nat.zero_le _⟩
       try dsimp only
-      try simp only [if_neg hw]
       omega
   · refine post_bind
-      (P := fun t c2 => c2 = cursor + strSize t.clientId
-              + (if willFlag flags then strSize t.willTopic + strSize t.willPayload else 0)
-              + (if userNameFlag flags then strSize t.userName else 0)) ?_ fun t2 c2 h2 => ?_
+      (P := fun t c2 => c2 = cursor + strSize t.clientId + (if willFlag flags then willLen v5 t else 0)
+              + (if userNameFlag flags then strSize t.userName else 0) ∧ t.wOk) ?_ fun t2 c2 ⟨h2, w2⟩ => ?_
     · split
-      · rename_i hu
-        refine post_sliceFrom fun d _ => ?_
-        refine post_bind (post_mapErr (decStr_post d)) fun u c h => post_ok ?_
-        try dsimp only
-        try simp only [if_pos hu]
+      · refine post_sliceFrom fun d _ => ?_
+        refine post_bind (post_mapErr (decStr_post d)) fun u c h => post_ok ⟨?_, w1⟩
+        try dsimp only [willLen]
+        simp only [willLen] at h1 ⊢
         omega
-      · rename_i hu
-        refine post_ok ?_
+      · refine post_ok ⟨?_, w1⟩
         try dsimp only
-        try simp only [if_neg hu]
         omega
-    · refine post_bind (P := fun t c3 => c3 = cursor + tailLen3 flags t) ?_ fun t3 c3 h3 => ?_
+    · refine post_bind (P := fun t c3 => c3 = cursor + tailLen v5 flags t ∧ t.wOk) ?_ fun t3 c3 h3 => ?_
       · split
         · rename_i hp
           refine post_sliceFrom fun d _ => ?_
-          refine post_bind (post_mapErr (decBin_post d)) fun p c h => post_ok ?_
-          try dsimp only
-          simp only [tailLen3]; try simp only [if_pos hp]
+          refine post_bind (post_mapErr (decBin_post d)) fun p c h => post_ok ⟨?_, w2⟩
+          simp only [tailLen, willLen, if_pos hp] at h2 ⊢
           omega
         · rename_i hp
-          refine post_ok ?_
-          try dsimp only
-          simp only [tailLen3]; try simp only [if_neg hp]
+          refine post_ok ⟨?_, w2⟩
+          simp only [tailLen, if_neg hp]
           omega
       · split
         · exact post_err
         · exact post_ok h3
 
+def tailBytes (v5 : Bool) (flags : Nat) (t : ConnTail) : List Nat :=
+  encStr t.clientId
+    ++ ((if willFlag flags then
+            (if v5 then vbiEnc t.willPropLen ++ Props.encode t.willProps else []) ++ (encStr t.willTopic ++ encStr t.willPayload)
+          else [])
+    ++ ((if userNameFlag flags then encStr t.userName else []) ++ (if passwordFlag flags then encStr t.password else [])))
+
+theorem tail_encode_length (v5 : Bool) (flags : Nat) (t : ConnTail) (w : t.wOk) :
+    (tailBytes v5 flags t).length = tailLen v5 flags t := by
+  unfold tailBytes tailLen willLen
+  cases v5 <;> cases willFlag flags <;> cases userNameFlag flags <;> cases passwordFlag flags <;>
+    simp [encStr_length, vbiEnc_length _ w.2, w.1] <;> omega
+
 theorem Connect3.size_ok (data : List Nat) : Post (Connect3.parse data) (fun p _ => p.size = p.encode.length) := by
   unfold Connect3.parse
   refine post_bind (P := fun _ c => c = 10) (fun a c e => ((parseConnectHead_sat 4 data).post a c e).1) fun fk c hc => ?_
   subst hc
-  refine post_bind (parseConnectTail3_post fk.1 data 10) fun t c2 h2 => ?_
+  refine post_bind (parseConnectTail_post false fk.1 data 10) fun t c2 ⟨h2, w⟩ => ?_
   refine post_vbiOf fun hm => post_ok ?_
-  have := sizeOfRem_eq 0x10 c2
-    (connectBody 4 fk.1 fk.2 ++ (encStr t.clientId
-      ++ ((if willFlag fk.1 then encStr t.willTopic ++ encStr t.willPayload else [])
-      ++ ((if userNameFlag fk.1 then encStr t.userName else []) ++ (if passwordFlag fk.1 then encStr t.password else [])))))
-    hm (by
-      rw [h2]
-      unfold tailLen3
-      simp only [List.length_append, encStr_length, connectBody, encU16, List.length_cons, List.length_nil]
-      cases willFlag fk.1 <;> cases userNameFlag fk.1 <;> cases passwordFlag fk.1 <;>
-        simp [encStr_length] <;> omega)
-  simpa [Connect3.size, Connect3.encode, List.append_assoc] using this
+  have := sizeOfRem_eq 0x10 c2 (connectBody 4 fk.1 fk.2 ++ tailBytes false fk.1 t) hm
+    (by rw [List.length_append, tail_encode_length false fk.1 t w, h2]; simp [connectBody, encU16] <;> omega)
+  simpa [Connect3.size, Connect3.encode, List.append_assoc, tailBytes] using this
+
+theorem Connect5.size_ok (data : List Nat) : Post (Connect5.parse data) (fun p _ => p.size = p.encode.length) := by
+  unfold Connect5.parse
+  refine post_bind (P := fun _ c => c = 10) (fun a c e => ((parseConnectHead_sat 5 data).post a c e).1) fun fk c hc => ?_
+  subst hc
+  refine post_bind (parsePropsAt_lenOk _ _ data 10) fun pp pc ⟨a, _, b, e⟩ => ?_
+  dsimp only
+  refine post_bind (parseConnectTail_post true fk.1 data (10 + pc)) fun t c2 ⟨h2, w⟩ => ?_
+  refine post_vbiOf fun hm => post_ok ?_
+  have := sizeOfRem_eq 0x10 c2 (connectBody 5 fk.1 fk.2 ++ (vbiEnc pp.2 ++ (Props.encode pp.1 ++ tailBytes true fk.1 t))) hm
+    (by simp only [List.length_append, tail_encode_length true fk.1 t w, h2, vbiEnc_length _ b, a]
+        simp [connectBody, encU16] <;> omega)
+  simpa [Connect5.size, Connect5.encode, List.append_assoc, tailBytes] using this
 
 /-! ### the sum type -/
-
-/-- kinds whose parser derives `remaining_length` from the sizes of the parts -/
-def Packet.sizeFromParts : Packet → Bool
-  | .connect5 _ | .connack5 _ | .subscribe5 _ | .suback5 _ | .unsubscribe5 _ | .unsuback5 _ => false
-  | _ => true
 
 theorem map_ok_inv {α : Type} {x : PRes α} {f : α → Packet} {p : Packet} {c : Nat} (h : x.map f = .ok p c) :
     ∃ a, p = f a := by
@@ -470,22 +569,25 @@ theorem map_ok_inv {α : Type} {x : PRes α} {f : α → Packet} {p : Packet} {c
   | err e => simp [PRes.map, PRes.bind] at h
   | panic s => simp [PRes.map, PRes.bind] at h
 
-/-- accepted by one of the 23 parsers that compute `remaining_length` from the parts:
-    `size()` is the length of the serialisation — for every input, no well-formedness assumed -/
+/-- every accepted input of every parser yields a packet whose `size()` is the length of its
+    serialisation — no well-formedness assumed -/
 theorem Packet.size_ok (version pw fh : Nat) (body : List Nat) (p : Packet) (c : Nat) (hpw : pw = 2 ∨ pw = 4)
-    (h : Packet.parse version pw fh body = some (.ok p c)) (hk : p.sizeFromParts = true) :
-    p.size = (p.encode pw).length := by
+    (h : Packet.parse version pw fh body = some (.ok p c)) : p.size = (p.encode pw).length := by
   unfold Packet.parse at h
   simp only at h
   split at h
   · split at h <;> first
       | (injection h with h; obtain ⟨a, rfl⟩ := map_ok_inv h; first
+          | exact (post_map (Q := fun q _ => q.size = (q.encode pw).length) (Connect5.size_ok body) (fun _ _ hh => hh)) _ c h
+          | exact (post_map (Q := fun q _ => q.size = (q.encode pw).length) (Connack5.size_ok body) (fun _ _ hh => hh)) _ c h
           | exact (post_map (Q := fun q _ => q.size = (q.encode pw).length) (Publish5.size_ok pw _ body hpw) (fun _ _ hh => hh)) _ c h
           | exact (post_map (Q := fun q _ => q.size = (q.encode pw).length) (Ack5.size_ok _ pw body hpw) (fun _ _ hh => hh)) _ c h
+          | exact (post_map (Q := fun q _ => q.size = (q.encode pw).length) (Subscribe5.size_ok pw body hpw) (fun _ _ hh => hh)) _ c h
+          | exact (post_map (Q := fun q _ => q.size = (q.encode pw).length) (Codes5.size_ok _ _ pw body hpw) (fun _ _ hh => hh)) _ c h
+          | exact (post_map (Q := fun q _ => q.size = (q.encode pw).length) (Unsubscribe5.size_ok pw body hpw) (fun _ _ hh => hh)) _ c h
           | exact (post_map (Q := fun q _ => q.size = (q.encode pw).length) (Empty.size_ok _ body) (fun _ _ hh => hh)) _ c h
           | exact (post_map (Q := fun q _ => q.size = (q.encode pw).length) (Disconnect5.size_ok body) (fun _ _ hh => hh)) _ c h
-          | exact (post_map (Q := fun q _ => q.size = (q.encode pw).length) (Auth5.size_ok body) (fun _ _ hh => hh)) _ c h
-          | (simp [Packet.sizeFromParts] at hk))
+          | exact (post_map (Q := fun q _ => q.size = (q.encode pw).length) (Auth5.size_ok body) (fun _ _ hh => hh)) _ c h)
       | (exact absurd h (by simp))
   · split at h <;> first
       | (injection h with h; obtain ⟨a, rfl⟩ := map_ok_inv h; first
